@@ -86,14 +86,18 @@ def export_universe(ctx: Ctx, *, minsize: int, maxsize: int, rich: bool, nshards
     return uniq
 
 
-def export_sources(ctx: Ctx, *, minsize: int, maxsize: int, rich: bool) -> list[dict]:
+def export_sources(ctx: Ctx, *, minsize: int, maxsize: int, rich: bool, nshards: int = 1, par: int = 1) -> list[dict]:
     """The multi-source family of MC_XarrayLabels (Mode = "sources"): every order of 2-3 sources of one axis."""
-    wd = ctx.workdir(f"mc_xarray_sources_{minsize}{maxsize}{int(rich)}")
-    cfg = MC_CFG.format(maxsize=maxsize, minsize=minsize, rich="TRUE" if rich else "FALSE", shard=0, nshards=1, mode="sources",
-                        invs=f"{LAWS_UNIVERSE} {LAWS_ALWAYS} EmitLabels")
-    r = run_tlc("MC_XarrayLabels", cfg, wd, workers=1, allow_violation=False, timeout=3000, heap="3g")
-    ctx.add_tlc(r, f"MC_XarrayLabels multi-source family sizes {minsize}..{maxsize} rich={rich}")
-    cases = [p for t, p in parse_prints(r.prints) if t == "CASE"]
+    def one(sh: int):
+        wd = ctx.workdir(f"mc_xarray_sources_{minsize}{maxsize}{int(rich)}_{sh}")
+        cfg = MC_CFG.format(maxsize=maxsize, minsize=minsize, rich="TRUE" if rich else "FALSE", shard=sh, nshards=nshards,
+                            mode="sources", invs=f"{LAWS_UNIVERSE} {LAWS_ALWAYS} EmitLabels")
+        return run_tlc("MC_XarrayLabels", cfg, wd, workers=1, allow_violation=False, timeout=3000, heap="3g")
+    cases = []
+    with ThreadPoolExecutor(max_workers=par) as ex:
+        for r in ex.map(one, range(nshards)):
+            ctx.add_tlc(r, f"MC_XarrayLabels multi-source family sizes {minsize}..{maxsize} rich={rich}")
+            cases += [p for t, p in parse_prints(r.prints) if t == "CASE"]
     if not cases:
         raise MachineryError("MC_XarrayLabels (sources mode) exported no cases")
     return cases
@@ -562,8 +566,8 @@ def run(ctx: Ctx) -> None:
     if quick:
         # quick: the half of the size-2 universe selected by the seed (MC_MapDenote's Shard/NShards), one storage per case
         # + the whole multi-source family (pairs from all 7 sources, triples from 5), whatever the seed
-        with ThreadPoolExecutor(max_workers=2) as ex:
-            fut = ex.submit(export_sources, ctx, minsize=2, maxsize=2, rich=False)
+        with ThreadPoolExecutor(max_workers=3) as ex:
+            fut = ex.submit(export_sources, ctx, minsize=2, maxsize=2, rich=False, nshards=2, par=2)
             cases = export_universe(ctx, minsize=2, maxsize=2, rich=False, nshards=2, par=1, only=ctx.seed % 2)
             sources = fut.result()
         jobs = jobs_for(cases, lambda k: [("dict", "file_array")[k % 2]], lambda k: [("ndarray", "list")[(k // 2) % 2]], keep=40,
@@ -583,7 +587,7 @@ def run(ctx: Ctx) -> None:
         jobs += jobs_for(more, lambda k: [("file_array", "dict")[k % 2]], lambda k: [("list", "ndarray")[(k // 2) % 2]],
                          every_single=False)
         cases += more
-        sources = export_sources(ctx, minsize=1, maxsize=2, rich=True)
+        sources = export_sources(ctx, minsize=1, maxsize=2, rich=True, nshards=6, par=6)
         ctx.extra["universe"] = (f"MC_XarrayLabels: Rich=TRUE sizes 2..2 (all shards) + Rich=FALSE sizes 1..2 shard {ctx.seed % 8} of 8 "
                                  "+ Rich=FALSE sizes 3..3 (all shards) + multi-source family (Rich=TRUE, sizes 1..2, every order); "
                                  "SameUniverse checked for Rich=FALSE sizes 1..2")
